@@ -571,9 +571,55 @@ impl Hist {
         self.step(w, ix, monitors, acc);
     }
 
+    /// A client tries to create a tick array at a start index that is NOT a multiple of 88 x spacing (a multiple of the
+    /// spacing only, of 88 only, of their least common multiple, just below the supported range, out of range), placed
+    /// so that it would contain a bound of a live position. Must be refused; if it is not, clients go on to use it.
+    pub fn op_hostile_tick_array_init(&mut self, w: &mut World, p: usize, monitors: &mut [Box<dyn Monitor>], acc: &mut Acc) {
+        use solana_program::system_program;
+        let sp = w.pools[p].tick_spacing as i64;
+        let tia = 88 * sp;
+        let live = self.live_positions(w, p);
+        let t: i64 = if live.is_empty() {
+            w.pool_state(p).tick_current_index as i64
+        } else {
+            let pi = &w.positions[*rnd::pick(&mut w.r, &live)];
+            (if w.r.gen() { pi.lower } else { pi.upper }) as i64
+        };
+        let gcd = |mut a: i64, mut b: i64| { while b != 0 { let x = a % b; a = b; b = x; } a };
+        let lcm = sp / gcd(sp, 88) * 88;
+        let mut cands: Vec<i64> = vec![
+            t.div_euclid(88) * 88,
+            t.div_euclid(lcm) * lcm,
+            t - sp * w.r.gen_range(0..88),
+            t.div_euclid(sp) * sp,
+            (MIN_TICK_INDEX as i64).div_euclid(sp) * sp,
+            (MIN_TICK_INDEX as i64).div_euclid(sp) * sp - sp * w.r.gen_range(0..20),
+            (MAX_TICK_INDEX as i64).div_euclid(tia) * tia + tia,
+            t.div_euclid(tia) * tia + 1,
+        ];
+        cands.retain(|s| s.rem_euclid(tia) != 0 && *s > i32::MIN as i64 / 2 && *s < i32::MAX as i64 / 2);
+        if cands.is_empty() {
+            return;
+        }
+        let start = *rnd::pick(&mut w.r, &cands) as i32;
+        let pool = w.pools[p].key;
+        let key = w.tick_array_key(p, start);
+        let ix = if w.r.gen() {
+            b::InitializeDynamicTickArray { whirlpool: pool, funder: ADMIN, tick_array: key, system_program: system_program::ID }.ix(start, false)
+        } else {
+            b::InitializeTickArray { whirlpool: pool, funder: ADMIN, tick_array: key, system_program: system_program::ID }.ix(start)
+        };
+        acc.count("tick_array_inits_at_invalid_start");
+        let o = self.step(w, ix, monitors, acc);
+        if o.ok() {
+            acc.count("tick_array_inits_at_invalid_start_accepted");
+            w.rogue_arrays.push((p, start));
+        }
+    }
+
     pub fn op_liquidity(&mut self, w: &mut World, p: usize, monitors: &mut [Box<dyn Monitor>], acc: &mut Acc) {
         if rnd::chance(&mut w.r, 1, 25) {
-            return self.op_reinitialize_tick_array(w, p, monitors, acc);
+            return if w.r.gen() { self.op_reinitialize_tick_array(w, p, monitors, acc) } else { self.op_hostile_tick_array_init(w, p, monitors, acc) };
         }
         let live = self.live_positions(w, p);
         if live.is_empty() || rnd::chance(&mut w.r, 1, 5) {
@@ -821,6 +867,16 @@ impl Hist {
                     acc.count("v1_swaps_with_adaptive_oracle_read_only");
                 }
             }
+        } else if ix.name.contains("swap") && rnd::chance(&mut w.r, 1, 20) {
+            // the oracle slot of an adaptive-fee pool names an address that holds nothing: must be refused
+            // (an absent oracle means "static pool" only for pools that have none)
+            let fresh = w.new_key();
+            for m in ix.metas.iter_mut() {
+                if m.name.starts_with("oracle") && w.bank.get(&m.key).map(|a| !a.data.is_empty()).unwrap_or(false) {
+                    m.key = fresh;
+                    acc.count("swaps_with_empty_account_in_adaptive_oracle_slot");
+                }
+            }
         }
         ix
     }
@@ -969,7 +1025,14 @@ impl Hist {
         let pi = w.positions[i].clone();
         let Some(program) = w.bank.get(&pi.token_account).map(|a| a.owner) else { return };
         let owner = w.users[pi.owner].key;
-        let ix = if rnd::chance(&mut w.r, 1, 3) {
+        let ix = if rnd::chance(&mut w.r, 1, 8) {
+            // the holder moves the position token to somebody else's account and keeps using the (now empty) old one:
+            // every later instruction of the old holder on this position must fail
+            let other = w.users[(pi.owner + 1) % w.users.len()].key;
+            let dest = w.create_token_account(pi.mint, other);
+            acc.count("position_tokens_moved_away");
+            spl_token_2022::instruction::transfer_checked(&program, &pi.token_account, &pi.mint, &dest, &owner, &[], 1, 0).unwrap()
+        } else if rnd::chance(&mut w.r, 1, 3) {
             acc.count("position_token_revokes");
             spl_token_2022::instruction::revoke(&program, &pi.token_account, &owner, &[]).unwrap()
         } else {
@@ -1013,9 +1076,15 @@ impl Hist {
                 }
             }
             2 => {
-                // open with metadata (Metaplex CPI is a recording stub)
+                // open with metadata (Metaplex CPI is a recording stub); one in three leaves a bound to be derived from the price
                 let u = w.r.gen_range(0..w.users.len());
-                let (lo, hi) = self.gen_range(w, p);
+                let (mut lo, mut hi) = self.gen_range(w, p);
+                let near = usable(st.tick_current_index, pool.tick_spacing);
+                match w.r.gen_range(0..6) {
+                    0 => { lo = i32::MIN; hi = near + w.r.gen_range(1..40) * s; }
+                    1 => { hi = i32::MAX; lo = near - w.r.gen_range(1..40) * s; }
+                    _ => {}
+                }
                 let owner = w.users[u].key;
                 let mint = w.new_key();
                 let (position, bump) = b::pda_position(mint);
@@ -1039,6 +1108,10 @@ impl Hist {
                 .ix(b::OpenPositionWithMetadataBumps { position_bump: bump, metadata_bump: mbump }, lo, hi);
                 let o = self.step(w, ix, monitors, acc);
                 if o.ok() {
+                    if let Some(pp) = w.bank.data(&position).and_then(codec::Position::decode) {
+                        lo = pp.tick_lower_index;
+                        hi = pp.tick_upper_index;
+                    }
                     w.positions.push(PosInfo { pool: p, position, mint, owner: u, token_account: ta, kind: PosKind::Plain, lower: lo, upper: hi, closed: false, locked: false });
                 }
             }
@@ -1126,7 +1199,14 @@ impl Hist {
                         }
                     }
                 }
-                let ix = b::ResetPositionRange { funder: ADMIN, position_authority: w.users[pi.owner].key, whirlpool: pool.key, position: pi.position, position_token_account: pi.token_account, system_program: system_program::ID }.ix(lo, hi);
+                // one reset in ten names ANOTHER pool as the position's pool (the range would be judged by its spacing): must fail
+                let named_pool = if w.pools.len() > 1 && rnd::chance(&mut w.r, 1, 10) {
+                    acc.count("resets_naming_another_pool");
+                    w.pools[(p + 1 + w.r.gen_range(0..w.pools.len() - 1)) % w.pools.len()].key
+                } else {
+                    pool.key
+                };
+                let ix = b::ResetPositionRange { funder: ADMIN, position_authority: w.users[pi.owner].key, whirlpool: named_pool, position: pi.position, position_token_account: pi.token_account, system_program: system_program::ID }.ix(lo, hi);
                 let o = self.step(w, ix, monitors, acc);
                 if o.ok() {
                     w.positions[i].lower = lo;
